@@ -180,8 +180,7 @@ class Ctx:
         """make the given .vo targets (relative to coq/); returns (ok, log)"""
         with open(os.path.join(COQ, ".lock"), "w") as lk:
             fcntl.flock(lk, fcntl.LOCK_EX)
-            if not os.path.exists(os.path.join(COQ, "Makefile")):
-                sh([os.path.join(VERIF, "tools", "gen_coqproject.sh")], cwd=VERIF, check=True)
+            sh([os.path.join(VERIF, "tools", "gen_coqproject.sh")], cwd=VERIF, check=True)
             rc, out, err = sh(["make", "-k", "-j%d" % NCPU] + list(targets), cwd=COQ, timeout=timeout)
         return rc == 0, out + err
 
